@@ -110,17 +110,11 @@ theorem invC_stepS (V : Variant) (jobs : List Job) (s s' : State) (h : InvC jobs
   case ins =>
     obtain ⟨h1, h2⟩ := h
     simp only [stepS] at hs
-    split at hs
-    · simp at hs; subst hs; constructor
-      · intro j; have := h1 j; simp only [inHand, State.subs, List.count_append] at *; omega
-      · simp_all [rest]
-    · split at hs
-      · simp at hs; subst hs; constructor
-        · intro j; have := h1 j; simp only [inHand, State.subs, List.count_append] at *; omega
-        · simp_all [rest]
-      · simp at hs; subst hs; constructor
-        · intro j; have := h1 j; simp only [inHand, State.subs, List.count_append] at *; omega
-        · simp_all [rest]
+    repeat' split at hs
+    all_goals (simp at hs; subst hs; constructor)
+    all_goals first
+      | (intro j; have := h1 j; simp only [inHand, State.subs, List.count_append] at *; omega)
+      | simp_all [rest]
   case startSub =>
     simp only [stepS, Option.some.injEq] at hs; subst hs
     apply invC_finishS
@@ -334,6 +328,15 @@ theorem invC_step (V : Variant) (jobs : List Job) (s s' : State) (e : Ev) (h : I
     · simp at hs
     · simp only [Option.some.injEq] at hs; subst hs
       exact ⟨h.cons, h.prog⟩
+  | L j =>
+    simp only [step] at hs
+    split at hs
+    · simp only [Option.some.injEq] at hs; subst hs
+      exact ⟨h.cons, h.prog⟩
+    · simp at hs
+  | O j g =>
+    simp only [step, Option.some.injEq] at hs; subst hs
+    exact ⟨h.cons, h.prog⟩
 
 theorem reachable_invC {V : Variant} {jobs : List Job} {s : State} (h : Reachable V jobs s) : InvC jobs s := by
   induction h with
